@@ -8,8 +8,8 @@ import vp
 
 EMPTY = 2 ** 64 - 1      # OwnerId::EMPTY and the LOCK indicator of the generation counter share the value u64::MAX
 LABELS = ["gc_ld", "acq_s", "acq_f", "inc", "full_s", "full_f", "rel_s", "rel_f", "il_ld", "cnt_ld", "lock_s", "lock_f"]
-INVS = "Exclusive InRange HeldIsMarked LockIsFinal LockedIsEmpty NoAcquireAfterLock FullOnlyWhenFull"
-OPS = {"acq": "acq", "rel0": "rel", "rell0": "rell"}
+INVS = "Exclusive InRange HeldIsMarked LockIsFinal LockedIsEmpty NoAcquireAfterLock FullOnlyWhenFull UnlockedOnlyWhenOthers"
+OPS = {"acq": "acq", "rel0": "rel", "rell0": "rell", "obs": "obs"}
 ROBUST = "mpmc/robust_unique_index_set.rs"
 
 
@@ -29,6 +29,9 @@ def prepare(recs, cap):
             gc_off = e["off"]
     cell_offs = sorted({e["off"] for e in atoms} - {gc_off})
     tab, drift, out = {}, [], []
+    # LockRetries: what does lock() do after a FAILED locking CAS that did not read LOCK - snapshot again (the thread's
+    # next access is another gc_ld of the same call) or return?  pending = threads whose last access was such a CAS
+    retries, pending = set(), set()
 
     def bind(label, val):
         if tab.setdefault(label, val) != val:
@@ -40,13 +43,17 @@ def prepare(recs, cap):
         if k == "reset":
             out.append({"k": "reset"})
             phase, cur, ncnt = {}, {}, {}
+            pending.clear()
         elif k == "call":
             a = e["a"]
-            name = "acq" if a == "acq" else ("rell" if e.get("m") == 1 else "rel")
+            name = a if a in ("acq", "obs") else ("rell" if e.get("m") == 1 else "rel")
             cur[e["t"]] = name
             phase[e["t"]] = "start"
             out.append({"k": "call", "t": e["t"] + 1, "a": name})
         elif k == "ret":
+            if e["t"] in pending:
+                pending.discard(e["t"])
+                retries.add(False)
             out.append({"k": "ret", "t": e["t"] + 1})
         elif k == "end":
             out.append({"k": "end"})
@@ -57,6 +64,9 @@ def prepare(recs, cap):
             t, op, off = e["t"], ("cas" if e["op"] == "cas_weak" else e["op"]), e["off"]
             ph = phase.get(t, "start")
             role, slot, rd, lk = None, 0, e["rd"], 0
+            if t in pending:
+                pending.discard(t)
+                retries.add(op == "load" and off == gc_off)
             rdv = 999 if rd == EMPTY and off == gc_off else (0 if rd == EMPTY else rd)
             if off in cell_offs:
                 slot = cell_offs.index(off)
@@ -101,6 +111,11 @@ def prepare(recs, cap):
                     role = "gc_ld"
                     bind("gc_ld", e["ord"])
                     phase[t] = "scan"
+                elif op == "load" and ph == "start" and cur.get(t) == "obs":
+                    role = "gc_ld"          # the observer borrowed_indices(): the snapshot loop without the locking CAS
+                    bind("gc_ld", e["ord"])
+                    phase[t] = "count"
+                    ncnt[t] = 0
                 elif op == "load" and ph == "after_rel":
                     role = "il_ld"
                     bind("il_ld", e["ord"])
@@ -117,12 +132,18 @@ def prepare(recs, cap):
                     role = "lock"
                     bind("lock_s", e["ord"]), bind("lock_f", e["ordf"])
                     phase[t] = "lock_loop"
+                    if not e["ok"] and rd != EMPTY:
+                        pending.add(t)
             if role is None:
                 drift.append(f"unexpected access {op} at {e.get('site')} in {cur.get(t)} (phase {ph})")
                 out.append({"k": "aux"})
                 continue
             out.append({"k": "atom", "t": t + 1, "role": role, "slot": slot, "rd": rdv if rdv < 2 ** 31 else 0, "lk": lk,
                         "ok": bool(e["ok"]), "ord": e["ord"], "ordf": e["ordf"]})
+    if len(retries) == 1:
+        tab["LockRetries"] = retries.pop()
+    elif retries:
+        drift.append("lock(): after a failed locking CAS the call sometimes rescans and sometimes returns")
     return out, tab, sorted(set(drift))
 
 
@@ -135,7 +156,7 @@ def gen_module(ctx, name, base, cap, prog, tab, trace):
     d = ctx.path("mc", "ruis-" + name, "x")[:-2]
     with open(os.path.join(d, f"{name}.tla"), "w") as f:
         f.write(f"---- MODULE {name} ----\nEXTENDS {base}\nOrdVal == [{ordv}]\nProgVal == {tla_prog(prog)}\n====\n")
-    consts = f"CONSTANTS\n Cap = {cap}\n Prog <- ProgVal\n Ord <- OrdVal\n"
+    consts = f"CONSTANTS\n Cap = {cap}\n Prog <- ProgVal\n Ord <- OrdVal\n LockRetries = {'TRUE' if tab['LockRetries'] else 'FALSE'}\n"
     with open(os.path.join(d, f"{name}.cfg"), "w") as f:
         if trace:
             f.write("SPECIFICATION TraceSpec\n" + consts + "CONSTRAINT Progress\nPOSTCONDITION Accepted\nCHECK_DEADLOCK FALSE\n")
@@ -147,9 +168,12 @@ def gen_module(ctx, name, base, cap, prog, tab, trace):
 def run_impl(ctx):
     q = ctx.quick
     A, R, RL = "acq", "rel0", "rell0"
-    progs = [(2, [[A, RL], [A, R, A]], 2), (1, [[A, A], [A, R]], 2)]
+    O = "obs"
+    # the last quick program: a lock-if-last release of the last index overlapped by the observer borrowed_indices(), which
+    # bumps the generation counter although the set stays empty -> the locking CAS of lock() fails (LockRetries is extracted here)
+    progs = [(2, [[A, RL], [A, R, A]], 2), (1, [[A, A], [A, R]], 2), (1, [[A, RL], [O]], 2)]
     if not q:
-        progs += [(2, [[A, A, RL], [A, RL]], 1), (1, [[A, RL, A], [A]], 2)]
+        progs += [(2, [[A, A, RL], [A, RL]], 1), (1, [[A, RL, A], [A]], 2), (2, [[A, RL, A], [O, O]], 2), (1, [[A, RL], [O], [O]], 2)]
     tab, drift_any, prepared = {}, False, []
     for n, (cap, prog, bound) in enumerate(progs):
         out = ctx.path("traces", f"ruis-impl-{n}.ndjson")
@@ -175,7 +199,7 @@ def run_impl(ctx):
     need = {"gc_ld", "cell_acq", "inc", "full", "cell_rel", "il_ld", "cnt_ld", "lock"}
     if prepared and not need <= roles:
         raise vp.ToolError(f"vacuous: access roles never observed on the robust index set: {sorted(need - roles)}")
-    missing = [l for l in LABELS if l not in tab]
+    missing = [l for l in LABELS + ["LockRetries"] if l not in tab]
     if missing:
         drift_any = True
         print(f"DRIFT: robust index set: orderings not observed: {missing}")
@@ -184,7 +208,7 @@ def run_impl(ctx):
     if drift_any:
         ctx.note("ruis_impl: weak-memory argument for the robust index set not applicable to this build (drift)")
         return
-    for n, cap, prog, recs, execs in prepared[:1 if q else 4]:
+    for n, cap, prog, recs, execs in ([p for p in prepared if p[0] in (0, 2)] if q else prepared):
         tf = ctx.path("traces", f"ruis-impl-{n}-labelled.ndjson")
         vp.write_ndjson(tf, recs)
         name = f"RUT_{n}"
@@ -196,9 +220,10 @@ def run_impl(ctx):
             ctx.note(f"ruis_impl: atomic-level drift at {v.pos}: {v.record}; weak-memory argument not applicable")
             return
         ctx.traces_validated += execs
-    mcs = [(2, [[A, RL], [A, R, A]]), (1, [[A, RL, A], [A]])]
+    mcs = [(2, [[A, RL], [A, R, A]]), (1, [[A, RL, A], [A]]), (1, [[A, RL, A], [O]])]
     if not q:
-        mcs += [(2, [[A, A], [A, R]]), (2, [[A, A, RL], [A, RL]]), (2, [[A, RL], [A, RL], [A]]), (1, [[A, R], [A, RL], [A]])]
+        mcs += [(2, [[A, A], [A, R]]), (2, [[A, A, RL], [A, RL]]), (2, [[A, RL], [A, RL], [A]]), (1, [[A, R], [A, RL], [A]]),
+                (1, [[A, RL], [O], [O]]), (2, [[A, RL], [A, R], [O]]), (2, [[A, RL, A], [O, O]])]
     for n, (cap, prog) in enumerate(mcs):
         name = f"RU_{n}"
         d = gen_module(ctx, name, "RuisImpl", cap, prog, tab, False)
@@ -209,7 +234,7 @@ def run_impl(ctx):
         if res.violated:
             ctx.report(vp.Violation(
                 f"TLC refutes {res.violated} for RobustUniqueIndexSet (RuisImpl.tla: acquire / release / lock-if-last, one action "
-                f"per access over C11Mem) with the memory orderings used by the code {tab}; the atomic-level traces of the code "
+f"per access over C11Mem) with the memory orderings and the lock() retry behaviour (LockRetries) used by the code {tab}; the atomic-level traces of the code "
                 f"conform to that model (program {prog}, capacity {cap})",
                 replay={"invariant": res.violated, "orderings": tab, "cap": cap, "prog": prog,
                         "counterexample": [h for h, _ in res.cex]},
@@ -224,4 +249,14 @@ def run_impl(ctx):
         vp.record_tlc(ctx, "must-fail robust set with relaxed generation counter", res, count=False)
         if not res.violated:
             raise vp.ToolError("must-fail instance (relaxed generation counter) was not refuted: RuisImpl is vacuous")
+        # must-fail: lock() that gives up after a failed locking CAS + an observer -> the last release reports Unlocked
+        # (another lock-if-last release alone is no such witness: its bump comes from a release that has not returned,
+        # which the API-level notion counts as "still taken" - and the last bumper always locks)
+        for nm, cap, prog in (("MF_noretry_obs", 1, [[A, RL], [O]]),):
+            d = gen_module(ctx, nm, "RuisImpl", cap, prog, dict(tab, LockRetries=False), False)
+            res = vp.tlc(d, nm, workers=6, timeout=1500, libs=["lockfree"], heap="8g")
+            vp.record_tlc(ctx, f"must-fail robust set, lock() without the retry, {prog}", res, count=False)
+            if res.violated != "UnlockedOnlyWhenOthers":
+                raise vp.ToolError(f"must-fail instance {nm} (LockRetries = FALSE) was not refuted by UnlockedOnlyWhenOthers "
+                                   f"(got {res.violated}): the observer / retry part of RuisImpl is vacuous")
     ctx.note("RuisImpl.tla: robust index set model-checked with the extracted orderings; atomic-level traces conform")
